@@ -96,10 +96,12 @@ def gen_cases(rng, tier):
                     v = "valid"
             elif v == "random_transfer_frac_weight":
                 c["cfg"]["transfer"] = "random"
-                c["cfg"]["m"] = 1
-                # make the first candidate reach the quota so that the transfer is used
-                top = bs[0]["r"][0][0]
-                bs.insert(0, {"r": [[top]] + [[x] for x in c["profile"]["cands"] if x != top][:1], "w": "41/2"})
+                # any ballot, any seat count: the election must be refused whether or not a surplus of
+                # that ballot would ever be moved (the check used to be lazy: known_findings `fixed`)
+                bs[pos]["w"] = rng.choice(["3/2", "41/2", "1/3", "1000001/1000000"])
+                if rng.random() < 0.3:
+                    top = bs[0]["r"][0][0]
+                    bs.insert(0, {"r": [[top]] + [[x] for x in c["profile"]["cands"] if x != top][:1], "w": "41/2"})
             elif v == "alaska_order":
                 c["cfg"]["m_1"], c["cfg"]["m_2"] = 1, 2
             elif v == "alaska_zero":
